@@ -125,9 +125,9 @@ fn set_heights(p: &mut StarkProof) {
     }
 }
 
-pub const GROUPS: [&str; 17] = [
+pub const GROUPS: [&str; 18] = [
     "n_queries", "blowup", "blowup_mod_p", "trace_size", "last_layer_bound", "n_layers", "n_friendly", "fri_input_only", "steps_all",
-    "big_domain", "step1_shift", "zero_columns", "output_span", "program_span", "trailing_step", "drop_inner_layer", "page_header",
+    "big_domain", "step1_shift", "zero_columns", "output_span", "program_span", "trailing_step", "drop_inner_layer", "page_header", "one_column",
 ];
 
 pub fn group_values(name: &str) -> Vec<u64> {
@@ -164,6 +164,11 @@ pub fn group_values(name: &str) -> Vec<u64> {
         // column, column + 1, 2^60, 2^64, 2^128, p-1), v / 10 the product (1, 0, random-looking, p-1);
         // v >= 100: two headers. The product ratio is computed during the commitment phase, long before
         // verify_public_input refuses continuous pages
+        // the composition table re-declared with ONE column (its column count is checked by no validation)
+        // and each queried row replaced by that row's hash: a single-column row is used unhashed as the
+        // leaf, so the decommitment still opens to the committed root and the values reach the code after it
+        // (v = 0: values replaced; v = 1: only the declaration changed)
+        "one_column" => vec![0, 1],
         "page_header" => vec![0, 1, 2, 3, 4, 5, 6, 7, 10, 11, 13, 14, 17, 20, 30, 34, 100, 104, 110, 117],
         _ => vec![],
     }
@@ -339,6 +344,20 @@ pub fn apply_group(p: &mut StarkProof, name: &str, v: u64) {
                 if lb <= 16 {
                     p.unsent_commitment.fri.last_layer_coefficients.resize(1usize << lb, Felt::ZERO);
                 }
+            }
+        }
+        "one_column" => {
+            let width = fu64(&p.config.composition.n_columns).unwrap_or(2).clamp(1, 64) as usize;
+            p.config.composition.n_columns = Felt::ONE;
+            if v == 0 {
+                let tp = vcommon::merkle::TreeParams {
+                    height: fu64(&p.config.composition.vector.height).unwrap_or(20).min(120) as u32,
+                    n_friendly: fu64(&p.config.n_verifier_friendly_commitment_layers).unwrap_or(u64::MAX),
+                    hash: vcomp::build_hash(),
+                };
+                let r_inv = vcommon::inv(vcommon::montgomery_r());
+                let rows: Vec<Felt> = p.witness.composition_decommitment.values.chunks(width).map(|row| vcommon::merkle::row_hash(&tp, row) * r_inv).collect();
+                p.witness.composition_decommitment.values = rows;
             }
         }
         "page_header" => {
